@@ -76,7 +76,8 @@ def gen_case(rng, struct_fields):
     if rng.random() < 0.01:
         ln = rng.choice([64, 257, 300]) * buf + rng.randrange(4)      # a few transfers of hundreds of commands
     if rng.random() < 0.03:
-        base = rng.choice([0xffffffff - ln - rng.randrange(8), 0, 1, 0x7fffffff - ln // 2])   # ends of the address space
+        # ends of the address space; the whole range stays below 2**32 for every alignment offset (0..3)
+        base = rng.choice([(1 << 32) - ln - 4 - rng.randrange(8), 0, 1, 0x7fffffff - ln // 2])
         base = max(0, base) & ~3
     c = {"op": op, "buf": buf, "window": rng.choice([1, 1, 2, 3, 8]), "x": rng.randrange(2), "y": rng.randrange(2),
          "p": rng.randrange(18), "addr": base + align, "len": ln, "timeout": 4}
